@@ -142,6 +142,28 @@ def check(rep, an, tier):
                         continue
                     vs = l_ if lv else r_
                     upper = (lv and op_ in ("LtE", "Lt")) or (rv and op_ in ("GtE", "Gt"))
+                    # a negative constant factor in front of the variable side turns the inequality round (`-1 * (total − L1) ≤ eps`)
+                    cur, flips, undec = vs, 0, False
+                    for _ in range(6):
+                        a_ = cur.tag("atom")
+                        if a_ and a_[0] == "neg":
+                            flips += 1
+                            cur = a_[1][0]
+                        elif a_ and a_[0] in ("mul", "multiply") and len(a_[1]) == 2 and any(not x_.tag("cvx") for x_ in a_[1]):
+                            k_ = [x_ for x_ in a_[1] if not x_.tag("cvx")][0]
+                            cur = [x_ for x_ in a_[1] if x_ is not k_][0]
+                            if k_.known and isinstance(k_.const, (int, float)) and not isinstance(k_.const, bool):
+                                flips += 1 if k_.const < 0 else 0
+                            elif k_.sign in ("POS", "NONNEG"):
+                                pass
+                            else:
+                                undec = True
+                        else:
+                            break
+                    if undec:
+                        continue
+                    if flips % 2:
+                        upper = not upper
                     if upper and any(at == "abs" and "L1" in _own_deps(res, v_) and _has_var(res, v_) for at, v_, ops_ in R.walk_atoms(vs)):
                         sides |= {"upper", "lower"}         # |f(x) − L1| ≤ eps
                     else:
